@@ -12,13 +12,24 @@ import (
 
 const (
 	genTimeout = 1000 * time.Millisecond
-	clockStep  = 1300 * time.Millisecond
+	clockStep  = 1300 * time.Millisecond // beyond the timeout
+	halfStep   = 600 * time.Millisecond  // within the timeout; two of them are beyond it
 )
 
 // reference automaton of the property's sentence, one per account name
 type refGen struct {
 	active      bool
+	started     time.Duration // harness clock at prepare
 	contributed map[uint64]bool
+}
+
+// expire drops the generations whose timeout has passed at harness time now.
+func expire(ref map[string]*refGen, now time.Duration) {
+	for _, r := range ref {
+		if r.active && now-r.started > genTimeout {
+			r.active = false
+		}
+	}
 }
 
 type outcome int
@@ -48,7 +59,10 @@ func classify(err error) outcome {
 // lifecycle drives one instance (id 2 of peers {1,2,3}) with a sequence of k events over two account
 // names and compares every outcome, and the existence of the accounts, with the reference automaton.
 // Participants of every generation are {1,2}; peer 3 is a configured peer that is NOT a participant.
-func lifecycle(k int) {
+func lifecycle(k int) { lifecycleFrom(nil, k) }
+
+// lifecycleFrom runs the fixed prefix of events (pairs event,name) and then k free events.
+func lifecycleFrom(prefix [][2]int, k int) {
 	vsym.ForbidCrash()
 	ctx := context.Background()
 	ids := []uint64{1, 2, 3}
@@ -58,19 +72,32 @@ func lifecycle(k int) {
 	names := []string{"accA", "accB"}
 	ref := map[string]*refGen{"accA": {}, "accB": {}}
 	created := map[string]bool{}
-	for step := 0; step < k; step++ {
+	now := time.Duration(0)
+	for step := 0; step < len(prefix)+k; step++ {
 		tag := fmt.Sprintf("_%d", step)
-		ev := vsym.Choose("event"+tag, 7)
-		if ev == 6 {
-			// the clock passes the generation timeout: every generation is gone
-			vsym.AdvanceClock(int64(clockStep))
-			for _, r := range ref {
-				r.active = false
+		var ev, ni int
+		if step < len(prefix) {
+			ev, ni = prefix[step][0], prefix[step][1]
+		} else {
+			ev = vsym.Choose("event"+tag, 8)
+		}
+		if ev == 6 || ev == 7 {
+			// the clock moves on: beyond the timeout, or by a step within it
+			d := clockStep
+			if ev == 7 {
+				d = halfStep
 			}
+			vsym.AdvanceClock(int64(d))
+			now += d
+			expire(ref, now)
 			vsym.Reach("clock-advanced")
 			continue
 		}
-		name := names[vsym.Choose("name"+tag, 2)]
+		if step >= len(prefix) {
+			ni = vsym.Choose("name"+tag, 2)
+		}
+		name := names[ni]
+		expire(ref, now)
 		acct := walletName + "/" + name
 		r := ref[name]
 		var got, want outcome
@@ -82,6 +109,7 @@ func lifecycle(k int) {
 			} else {
 				want = oOK
 				r.active = true
+				r.started = now
 				r.contributed = map[uint64]bool{2: true}
 			}
 		case 1: // execute
@@ -155,3 +183,14 @@ func Lifecycle2() { lifecycle(2) }
 func Lifecycle3() { lifecycle(3) }
 func Lifecycle4() { lifecycle(4) }
 func Lifecycle5() { lifecycle(5) }
+
+// LifecycleReprepare: a generation is prepared, aborted, and prepared again within the first one's
+// time window; then the clock passes the FIRST generation's deadline but not the second's.
+func LifecycleReprepare() {
+	lifecycleFrom([][2]int{{0, 0}, {5, 0}, {7, 0}, {0, 0}, {7, 0}}, 2)
+}
+
+// LifecycleRecommit: the same after a successful commit instead of an abort.
+func LifecycleRecommit() {
+	lifecycleFrom([][2]int{{0, 0}, {2, 0}, {4, 0}, {7, 0}, {0, 1}, {7, 0}}, 1)
+}
